@@ -5,12 +5,16 @@ T = "RsslVerif.Thm.C17."
 def nontrivial(req, obs):
     # at least two pipelines defined in the file
     f = req.split("\t")
+    if f[0] == "C17.typer":
+        return len(f) > 2 and f[2].count("| P ") + (1 if f[2].startswith("P ") else 0) >= 2
+    if f[0] == "C17.wide":
+        return len(f) > 4 and f[4].count("| P ") + (1 if f[4].startswith("P ") else 0) >= 2
     return len(f) > 3 and f[3].count(";") >= 1
 
 
 SPEC = {
     "id": "C17",
-    "gens": ["CompileTables"],
+    "gens": ["CompileTables", "PipelineTables"],
     "lean_modules": ["RsslVerif.Thm.C17"],
     "theorems": [T + n for n in [
         "loop_shape_as_modelled", "pipelines_reads_covered", "one_per_pipeline_in_order",
